@@ -22,28 +22,32 @@ const ModulePath = "github.com/free5gc/ike"
 
 // Ctx is the loaded program.
 type Ctx struct {
-	Dir       string
-	GOARCH    string
-	Fset      *token.FileSet
-	Pkgs      []*packages.Package
-	Prog      *ssa.Program
-	SSAPkgs   map[string]*ssa.Package // by import path
-	ModFuncs  []*ssa.Function         // every function with a body in module packages (incl. closures), sorted
-	inMod     map[*ssa.Package]bool
-	modPath   string
-	Inlined   []string // "caller <- callee" for every call folded back by the helper-inlining normalisation
-	cdMemo    map[*ssa.Function][]paramDom
-	cdOpen    map[*ssa.Function]bool
-	postOpen  map[*ssa.Function]bool
-	cgCache   *callGraph
-	effCache  map[*ssa.Function]*funcEffects
-	fieldTab  map[string]*fieldStores
-	fieldEsc  map[string]bool
-	sumFA     map[*ssa.Function]*FA
-	crDepth   int
-	slotCache *slotTables
-	curTables *slotTables
-	fieldBits map[string]int
+	Dir      string
+	GOARCH   string
+	Fset     *token.FileSet
+	Pkgs     []*packages.Package
+	Prog     *ssa.Program
+	SSAPkgs  map[string]*ssa.Package // by import path
+	ModFuncs []*ssa.Function         // every function with a body in module packages (incl. closures), sorted
+	inMod    map[*ssa.Package]bool
+	modPath  string
+	Inlined  []string // "caller <- callee" for every call folded back by the helper-inlining normalisation
+	// renamed anchors (anchors.go)
+	anchorAlias map[string]*ssa.Function
+	aliasTarget map[*ssa.Function]string
+	AnchorNotes []string
+	cdMemo      map[*ssa.Function][]paramDom
+	cdOpen      map[*ssa.Function]bool
+	postOpen    map[*ssa.Function]bool
+	cgCache     *callGraph
+	effCache    map[*ssa.Function]*funcEffects
+	fieldTab    map[string]*fieldStores
+	fieldEsc    map[string]bool
+	sumFA       map[*ssa.Function]*FA
+	crDepth     int
+	slotCache   *slotTables
+	curTables   *slotTables
+	fieldBits   map[string]int
 }
 
 // CannotDecide is the error class for "the checker itself could not run" (exit 2).
@@ -121,12 +125,13 @@ func Load(dir, goarch, modPath string, minPkgs int) (*Ctx, error) {
 	// that are not anchors of a rule are inlined into their callers (vendored go/ssa, xt/ssa/inline.go). On
 	// the tree the rules were written for this inlines nothing: every unexported function of that tree is an
 	// anchor. A helper introduced later is folded back into the functions the rules look at.
+	c.resolveAnchors()
 	if !NoInline {
 		res := ssa.InlineCalls(c.ModFuncs, ssa.InlineOptions{Callee: func(g *ssa.Function) bool {
 			if g.Object() == nil || g.Object().Exported() || !c.InModule(g) {
 				return false
 			}
-			return !inlineAnchors[g.Name()] && !strings.HasPrefix(g.Name(), "toString_") && !strings.HasPrefix(g.Name(), "init")
+			return !c.isAnchorFn(g) && !strings.HasPrefix(g.Name(), "toString_") && !strings.HasPrefix(g.Name(), "init")
 		}})
 		c.Inlined = res.Inlined
 	}
@@ -216,7 +221,10 @@ func (c *Ctx) Func(rel, name string) *ssa.Function {
 	if p == nil {
 		return nil
 	}
-	return p.Func(name)
+	if fn := p.Func(name); fn != nil {
+		return fn
+	}
+	return c.anchorAlias[rel+".."+name]
 }
 
 // Method resolves method name on named type typ (pointer receiver method set) of package rel.
@@ -242,7 +250,7 @@ func (c *Ctx) Method(rel, typ, name string) *ssa.Function {
 			}
 		}
 	}
-	return nil
+	return c.anchorAlias[rel+"."+typ+"."+name]
 }
 
 // NamedType resolves a named type of package rel.
